@@ -385,7 +385,7 @@ impl ProveState {
     pub(crate) fn is_parent_of(&self, child_last_state: &LastState) -> bool {
         let parent = self.get_last_header();
         let child = child_last_state.as_ref();
-        if !parent.header().is_parent_of(child.header()) {
+        if !parent.header().is_parent_of(child_last_state.header()) {
             return false;
         }
         // The chain root committed by the child should end at the proved parent block
